@@ -126,7 +126,7 @@ pub fn s08(args: &[String]) {
     ns.par_iter().for_each(|&n| {
         let mut rep = Report::default();
         let mut rng = Rng::new(seed ^ (n as u64) * 17);
-        for kind in Kind::ALL {
+        for kind in avail() {
             let dir = if rng.below(2) == 0 { FftDirection::Forward } else { FftDirection::Inverse };
             s08_one::<f32>(kind, n, dir, &mut rng, &mut rep);
             s08_one::<f64>(kind, n, dir, &mut rng, &mut rep);
@@ -187,7 +187,7 @@ pub fn s15(args: &[String]) {
     ns.par_iter().for_each(|&n| {
         let mut rep = Report::default();
         let mut rng = Rng::new(seed ^ (n as u64) * 19);
-        for kind in Kind::ALL {
+        for kind in avail() {
             let dir = if rng.below(2) == 0 { FftDirection::Forward } else { FftDirection::Inverse };
             s15_one::<f32>(kind, n, dir, &mut rng, &mut rep, &marker);
             s15_one::<f64>(kind, n, dir, &mut rng, &mut rep, &marker);
@@ -274,7 +274,7 @@ pub fn s03(args: &[String]) {
     ns.par_iter().for_each(|&n| {
         let mut rep = Report::default();
         let mut rng = Rng::new(seed ^ (n as u64) * 23);
-        for kind in Kind::ALL {
+        for kind in avail() {
             let dir = if rng.below(2) == 0 { FftDirection::Forward } else { FftDirection::Inverse };
             s03_one::<f32>(kind, n, dir, &mut rng, &mut rep, &marker);
             s03_one::<f64>(kind, n, dir, &mut rng, &mut rep, &marker);
